@@ -25,7 +25,7 @@ def spec_reply(ctx, rng, version, device_id, reported_ip, port, sn, name, extra=
     return bytes.fromhex(ctx.driver.ask(line))
 
 
-def run_discover(datagrams, target="255.255.255.255", single=False, timeout=1.0, **kw):
+def run_discover(datagrams, target="255.255.255.255", single=False, timeout=1.0, auto_connect=False, **kw):
     """datagrams: list of (delay, src_ip, src_port, bytes) sent in answer to the probe on port 6445.
     Returns (result | exception, sent datagrams list)"""
     out = {}
@@ -43,10 +43,10 @@ def run_discover(datagrams, target="255.255.255.255", single=False, timeout=1.0,
         net.add_udp_responder(responder)
         try:
             if single:
-                r = await Discover.discover_single(target, timeout=timeout, auto_connect=False, **kw)
+                r = await Discover.discover_single(target, timeout=timeout, auto_connect=auto_connect, **kw)
                 out["result"] = [] if r is None else [r]
             else:
-                out["result"] = await Discover.discover(target=target, timeout=timeout, auto_connect=False, **kw)
+                out["result"] = await Discover.discover(target=target, timeout=timeout, auto_connect=auto_connect, **kw)
         except Exception as e:  # noqa
             out["exc"] = e
         out["sent"] = list(net.datagrams_sent)
